@@ -118,8 +118,10 @@ def gen_scenario(rng, tier, knobs):
                 tasks[i]['runtime'] = rng.choice([1.0, 8.0, 8.0])
                 tasks[i]['descr'].pop('timeout', None)
     if rng.random() < knobs.get('work_exc_prob', 0.4):
+        # (last field: the exception escapes on entry, or only after the
+        # routine has advanced the bulk into its working state)
         ops.append([0.0, 'work_exc', rng.choice(COMPONENTS[:7]),
-                    rng.randrange(n)])
+                    rng.randrange(n), rng.choice(['entry', 'late'])])
     if rng.random() < knobs.get('io_fault_prob', 0.2):
         ops.append([0.0, 'io_fault', rng.choice(['script', 'link', 'move',
                                                  'mkdir']),
@@ -380,7 +382,8 @@ def run(seed, sc, trace=None, tier='quick'):
             # fault hooks --------------------------------------------------------
             for op in sc['ops']:
                 if op[1] == 'work_exc':
-                    install_work_exc(sim, st, w, op[2], 'task.%06d' % op[3])
+                    install_work_exc(sim, st, w, op[2], 'task.%06d' % op[3],
+                                     op[4] if len(op) > 4 else 'entry')
                 elif op[1] == 'io_fault':
                     install_io_fault(sim, st, op[2], 'task.%06d' % op[3])
 
@@ -492,9 +495,19 @@ def find_component(w, kind):
     return None
 
 
-def install_work_exc(sim, st, w, kind, uid):
+WORK_STATE = {'tmgr_scheduling'     : rps.TMGR_SCHEDULING,
+              'tmgr_staging_input' : rps.TMGR_STAGING_INPUT,
+              'tmgr_staging_output': rps.TMGR_STAGING_OUTPUT,
+              'agent_staging_input': rps.AGENT_STAGING_INPUT,
+              'agent_scheduling'   : rps.AGENT_SCHEDULING,
+              'agent_executing'    : rps.AGENT_EXECUTING,
+              'agent_staging_output': rps.AGENT_STAGING_OUTPUT}
+
+
+def install_work_exc(sim, st, w, kind, uid, when='entry'):
     '''the work routine of one component raises for the bulk containing
-    `uid` (once)'''
+    `uid` (once) - on entry, or (`late`) after it has advanced the bulk into
+    the component's working state, as nearly all work routines do first'''
     comp = find_component(w, kind)
     if comp is None:
         return
@@ -504,10 +517,14 @@ def install_work_exc(sim, st, w, kind, uid):
             if state['armed'] and any(t.get('uid') == uid for t in things):
                 state['armed'] = False
                 sim.fault('work_exc')
-                sim.log('fault_work_exc', comp=kind, uid=uid,
+                sim.log('fault_work_exc', comp=kind, uid=uid, when=when,
                         bulk=[t['uid'] for t in things])
                 for t in things:
                     st['exc_hit'].add(t['uid'])
+                if when == 'late' and kind in WORK_STATE:
+                    sim.fault('work_exc_late')
+                    comp.advance(things, WORK_STATE[kind], publish=True,
+                                 push=False)
                 raise RuntimeError('injected work error in %s' % kind)
             return _worker(things)
         comp._workers[s] = wrapped
@@ -778,6 +795,14 @@ def oracle_c11(sim, sc, st):
                 elif s == rps.FAILED and not soe and got is not None and \
                         failed_before_output(sc, st, uid):
                     sim.violation('C11', 'out_on_failure', site, det)
+                elif s == rps.CANCELED and not soe and got is not None and \
+                        killed_while_running(sim, uid) and \
+                        e['action'] != rp.TRANSFER:
+                    # the process was killed by the cancel request: the
+                    # executor handed the task on as CANCELED, its output
+                    # directives are not to be carried out
+                    sim.violation('C11', 'out_on_failure', site + ':canceled',
+                                  det)
     # a directive which cannot be carried out fails that task only: tasks
     # without any problem must be DONE
     for task in st['tasks']:
@@ -805,6 +830,13 @@ def oracle_c11(sim, sc, st):
             sim.violation('C11', 'fault_spread', 'other_task',
                           {'uid': uid, 'state': task.state,
                            'exception': str(task.exception)[:120]})
+
+
+def killed_while_running(sim, uid):
+    for ev in sim.events:
+        if ev['kind'] == 'proc_exit' and ev.get('tag') == uid:
+            return ev.get('why') in ('signal', 'sigkill')
+    return False
 
 
 def failed_before_output(sc, st, uid):
@@ -856,7 +888,8 @@ def shrink(sc):
                     nops.append([op[0], 'cancel', idx])
             elif op[1] in ('work_exc', 'io_fault'):
                 if op[3] in remap:
-                    nops.append([op[0], op[1], op[2], remap[op[3]]])
+                    nops.append([op[0], op[1], op[2], remap[op[3]]] +
+                                list(op[4:]))
             else:
                 nops.append(op)
         c['ops'] = nops
